@@ -114,7 +114,10 @@ class Link(base.BaseObject):
         :param kill: the vertex to unlink
         """
         if kill in self._vertices:
-            self._vertices.remove(kill)
+            # a link may name the same vertex several times (e.g. a self-loop);
+            # the vertex side drops the association as a whole, so every
+            # occurrence must go, or the two sides disagree afterwards
+            self._vertices = [v for v in self._vertices if v is not kill]
 
             if kill is not None:
                 kill.remove_from_link(self)
